@@ -55,7 +55,7 @@ claim("C11",
       "DESIGN.md §6 C11")
 claim("C12",
       "Proof that encode/decode of bookmarks are inverse and total, that Watch and WatchAll accept a bookmark exactly inside the retained window (both directions, "
-      "recent bookmarks always accepted), resume at position+1 with nothing overwritten, reject with the invalid-bookmark class, and start tails at the exact position.",
+      "recent bookmarks always accepted), resume at position+1 with nothing overwritten, reject with the invalid-bookmark class, and start tails at the exact position (kind watch) resp. on an event of the watched resource unless the retained history is exhausted (single-resource watch).",
       COMMON + "Assumes the history configuration is valid (1<=capacity, 0<=gap<=capacity).",
       "DESIGN.md §6 C12")
 claim("C19",
@@ -75,7 +75,7 @@ claim("C04",
       "DESIGN.md §6 C04")
 claim("C18",
       "Proof of the local framing logic of the compression and encryption wrappers for every byte string (marker bytes, size threshold, unknown compressor id "
-      "rejected, version byte, length guard, all index/slice expressions in bounds) that phase text forms parse back (ParsePhase/Phase.String), and that the zstd decoder is built from non-limiting options.",
+      "rejected, version byte, length guard, all index/slice expressions in bounds) that phase and version text forms parse back, that the zstd decoder is built from non-limiting options, and that the wire form of a resource's metadata is built field by field (scalar fields as they are, version and phase as text, both timestamps always present).",
       COMMON + "zstd, AES-GCM and the underlying marshaler are used through assumed interface contracts; protobuf/YAML codecs, metadata<->proto mapping, version text "
       "forms are under contract (ParseVersion parses back what Version.String writes, over an assumed decimal-text specification of strconv; finding F13, versions >= 2^63, repaired); timestamps and decoder totality of third-party libraries are not under contract.",
       "DESIGN.md §6 C18")
